@@ -34,12 +34,18 @@ DIRS = {1: (1.0, 0.0, 0.0), 2: (0.3, 0.6, 0.1), 3: (0.5, 0.0, 0.5),      # 2: th
 
 def code_params(c, form):
     lx, ly = 1 + c, 2 + c
-    return {'L_x': lx, 'L_y': ly} if form == 'dict' else [lx, ly]
+    if form != 'dict':
+        return [lx, ly]
+    # a dictionary names its entries: the order in which they are written is free
+    return {'L_x': lx, 'L_y': ly} if c % 2 else {'L_y': ly, 'L_x': lx}
 
 
 def noise_params(n, form):
     rx, ry, rz = DIRS[n]
-    return {'r_x': rx, 'r_y': ry, 'r_z': rz} if form == 'dict' else [rx, ry, rz]
+    if form != 'dict':
+        return [rx, ry, rz]
+    return [{'r_x': rx, 'r_y': ry, 'r_z': rz}, {'r_z': rz, 'r_x': rx, 'r_y': ry},
+            {'r_y': ry, 'r_z': rz, 'r_x': rx}][n % 3]
 
 
 BP_DEFAULTS = {'max_bp_iter': 1000, 'channel_update': False, 'osd_order': 10,
